@@ -258,7 +258,7 @@ def minimise_and_write(prop, engine_name, tier, seed, v, hashseed=0):
         "event_digest": res.digest, "minimiser_executions": tries, "plan": plan,
         "human_readable_plan": engine.describe(plan),
     }
-    d = os.path.join(VERIF, "replays", prop)
+    d = os.path.join(os.environ.get("VERIF_REPLAY_DIR") or os.path.join(VERIF, "replays"), prop)
     os.makedirs(d, exist_ok=True)
     path = os.path.join(d, f"{seed}-{core.slug(v['class'])}.json")
     with open(path, "w") as f:
@@ -400,7 +400,7 @@ def write_evidence(prop, tier, seed, per_engine, wall, n_unlisted, known_observe
             "per scenario every gated call index is used as a kill point and as an OSError point; "
             "scenarios themselves are sampled"
         )
-    d = os.path.join(VERIF, "evidence")
+    d = os.environ.get("VERIF_EVIDENCE_DIR") or os.path.join(VERIF, "evidence")
     os.makedirs(d, exist_ok=True)
     with open(os.path.join(d, f"{prop}.json"), "w") as f:
         json.dump(ev, f, indent=1, sort_keys=True)
